@@ -1506,7 +1506,26 @@ pub trait QueryBuilder:
         if right_paren {
             write!(sql, "(").unwrap();
         }
-        self.prepare_simple_expr(right, sql);
+        match right {
+            // `lo AND hi` of a BETWEEN: each bound is an operand of BETWEEN, not of a logical AND
+            SimpleExpr::Binary(lo, _, hi) if drop_right_between_hack => {
+                for (i, bound) in [lo, hi].into_iter().enumerate() {
+                    if i > 0 {
+                        write!(sql, " AND ").unwrap();
+                    }
+                    let bound_paren =
+                        !self.inner_expr_well_known_greater_precedence(bound, &op_as_oper);
+                    if bound_paren {
+                        write!(sql, "(").unwrap();
+                    }
+                    self.prepare_simple_expr(bound, sql);
+                    if bound_paren {
+                        write!(sql, ")").unwrap();
+                    }
+                }
+            }
+            _ => self.prepare_simple_expr(right, sql),
+        }
         if right_paren {
             write!(sql, ")").unwrap();
         }
